@@ -14,7 +14,7 @@
     native callback (known finding).
 Both debug and release builds in the thorough tier."""
 import json, os, random, re, collections, itertools
-import vlib
+import vlib, unwindlib
 
 HEADER = '''class Obj0 { init() { self.f = 1; } m(a) { return a; } str() { return "obj0"; } }
 fn plainfn(a) { return a; }
@@ -461,8 +461,14 @@ def run(pid, tier, replay=None):
             elif e["verdict"] != "body" and "#~ err" not in out:
                 v.violation(f"[{label}] {e['src']}: the gate's verdict is '{e['verdict']}' but no error was raised", {"call": e, "build": label, "stdout": out[:300]})
         # program families
-        cases = [{"id": f"f{i}", "files": {"/v/main.lay": src}, "main": "/v/main.lay", "stack_mb": 64} for i, (fid, src, exp) in enumerate(fams)]
+        cases = [{"id": f"f{i}", "files": {"/v/main.lay": src}, "main": "/v/main.lay", "stack_mb": 64, "classes": ["exc"], "max_events": 400000}
+                 for i, (fid, src, exp) in enumerate(fams)]
         res = vlib.run_batch(binary, cases, per_case_timeout=60) if cases else {}
+        # the frame / handler / nested loop events of every family program against the contract Unwind.tla
+        runs = [(f"f{i}", res[f"f{i}"].get("events", [])) for i in range(len(fams))
+                if res[f"f{i}"].get("dropped", 0) == 0 and res[f"f{i}"].get("status") in ("ok", "runtime_error")]
+        unwindlib.validate(v, pid, runs, lambda rid, rej: {"id": fams[int(rid[1:])][0], "source": fams[int(rid[1:])][1], "expect": fams[int(rid[1:])][2],
+                                                           "build": label, "unwind_event": rej})
         for i, (fid, src, exp) in enumerate(fams):
             r_ = res[f"f{i}"]
             judged += 1
